@@ -175,6 +175,32 @@ theorem success_answered (d : Nat → Nat) (U : List Nat) (l r a q T : Nat) (inP
   · simp at h
   · exact h
 
+/-- **Everything learned is tracked** (the invariant behind the closest-set condition; arbitrary
+clock readings). Every peer the lookup ever learned of — an initial candidate or a peer named in an
+accepted response, except the local node — is a candidate, an outstanding request, or a peer the
+lookup is done with. Distances are injective on the universe (two peers at the same distance would
+share one slot of the candidate map). -/
+theorem learned_tracked (d : Nat → Nat) (U : List Nat) (l r a q T : Nat) (inPeers : List KPeer) (evs : List Ev)
+    (h : Inputs d U l inPeers evs) (hinj : InjOn d U) :
+    ∀ p ∈ inPeers.map (·.peer) ++ (FindNode.new l r a q T inPeers).learned evs, p ≠ l →
+      p ∈ (dvalues ((FindNode.new l r a q T inPeers).run evs).1.candidates).map (·.peer) ∨
+      p ∈ pendPeers ((FindNode.new l r a q T inPeers).run evs).1.pending ∨
+      p ∈ ((FindNode.new l r a q T inPeers).run evs).1.queried := by
+  obtain ⟨_, _, _, _, _, k6⟩ :=
+    lookup_run (FindNode.sim d U) (FindNode.new l r a q T inPeers) l inPeers rfl h.candsOk evs h.evsOk
+  rw [← FindNode.run_eq, ← FindNode.learned_eq] at k6
+  intro p hp hpl
+  have := k6 hinj p hp hpl
+  simpa [View.knows, FindNode.view, candPeers, dvalues, List.map_map] using this
+
+/-- Peer 1 names 2, 3 and the local peer 0; 2 is asked next, 3 stays a candidate, 1 is done. -/
+example :
+    let s0 := FindNode.new 0 20 1 7 10 [⟨1, 5⟩]
+    let evs : List Ev := [.next 0, .resp 1 [⟨2, 3⟩, ⟨3, 9⟩, ⟨0, 1⟩], .next 0]
+    s0.learned evs = [2, 3, 0] ∧ (dvalues (s0.run evs).1.candidates).map (·.peer) = [3] ∧
+      pendPeers (s0.run evs).1.pending = [2] ∧ (s0.run evs).1.queried = [1] := by
+  decide
+
 /-- **Success: everything closer was contacted** (full statement). When `next_action` reports
 success, every peer the lookup ever learned of — the initial candidates and every peer named in an
 accepted response, except the local node — that is strictly closer to the target than the furthest
@@ -565,6 +591,8 @@ open Litep2pVerif.Props.C15 in
 #print axioms success_sorted_bounded
 open Litep2pVerif.Props.C15 in
 #print axioms success_answered
+open Litep2pVerif.Props.C15 in
+#print axioms learned_tracked
 open Litep2pVerif.Props.C15 in
 #print axioms success_closer_contacted
 open Litep2pVerif.Props.C15 in
